@@ -220,6 +220,12 @@ class SeqHarness:
                 self.rec(ctx, uid + f"/continuation#{k}/subscribes-nothing-and-emits-nothing", not self.ev("subscribe") and not self.ev("down") and not self.ev("next"))
                 if ok2:
                     self.rec(ctx, uid + f"/continuation#{k}/the-pending-tick-is-held-for-cancellation", cancelable.fields.get("current") is s2[0][5])
+                # frame: holding the new tick must not release the subscription that is (or, when the scheduler runs the tick inside schedule(),
+                # has just been) installed - only an earlier tick's handle may be disposed here
+                gone = [e[1] for e in self.ev("dispose")]
+                cur2 = subscription.fields.get("current")
+                self.rec(ctx, uid + f"/continuation#{k}/leaves-the-source-subscription-slot-alone", cur2 is cur and not any(g is subs[0][4] or g is cur for g in gone),
+                         detail=f"disposed: {[getattr(g, 'name', g) for g in gone]!r}")
                 if which == "catch" and args:
                     self.rec(ctx, uid + f"/continuation#{k}/remembers-the-error", same(cells["last_exception"].vars["last_exception"], args[0]))
         elif kind == "stop":
